@@ -43,7 +43,7 @@ def run(chk: Check, proj: Project) -> None:
 
     w_ = world(proj)
     chk.borrow("S6", "a cached Template is transparent only if rendering it does not depend on earlier renders: Node objects of the library store nothing on themselves at render time (a memo on a Node lives as long as the template stays cached - e.g. the component class looked up once survives a re-registration of the name) (shared with C07-S1-A2)",
-               lambda sub: C07.s1a_nodes(sub, proj, w_, set()), only=lambda o: "Node" in o.construct or "node" in o.construct)
+               lambda sub: (C07.s1a_nodes(sub, proj, w_, set()), C07.s1a_parsed_values(sub, proj, w_)), only=lambda o: "Node" in o.construct or "node" in o.construct or "no-shared-write" in o.construct)
     s5_accessors(chk, proj, ["TEMPLATE_CACHE_SIZE"], rule="S5")
     cm, cf = proj.func("cache", "get_template_cache")
     c = calls(cf, "LRUCache")
